@@ -88,6 +88,7 @@ type Exec struct {
 	allocOrder     map[*Term]int
 	bounded        map[*Term]bool
 	wholeCopy      map[*Term]wholeCopy
+	noExpand       int
 	typeIDs        map[string]int
 	freshErrs      []*Term
 	noOblige       int // >0: evaluating spec code; do not emit obligations
@@ -795,7 +796,7 @@ func (ex *Exec) execInstr(fr *frame, st *State, in ssa.Instruction) {
 			s := ex.term(st, in.X)
 			ex.oblige(st, "nopanic.index", "slice index in range", p.And(p.Le(p.Int(0), idx), p.Lt(idx, p.Acc(s, 2))), pos)
 			st.vals[in] = &PtrV{Kind: PBacking, Ref: p.Acc(s, 0), Root: xt.Elem(),
-				Path: []Step{{Kind: StepIndex, Index: p.Add(p.Acc(s, 1), idx), T: xt.Elem()}}}
+				Path: []Step{sliceStep(p, s, idx, xt.Elem())}}
 		case *types.Pointer:
 			arr := xt.Elem().Underlying().(*types.Array)
 			ex.oblige(st, "nopanic.index", "array index in range", p.And(p.Le(p.Int(0), idx), p.Lt(idx, p.Int(arr.Len()))), pos)
@@ -1567,4 +1568,13 @@ func (ex *Exec) changeType(st *State, v Val, to types.Type) Val {
 		return ex.bytesOfAbstract(t)
 	}
 	return v
+}
+
+// sliceStep: the path step to element idx of slice s (relative index plus the slice's offset when that is symbolic).
+func sliceStep(p *Pool, s, idx *Term, el types.Type) Step {
+	off := p.Acc(s, 1)
+	if off.Op == "int" {
+		return Step{Kind: StepIndex, Index: p.Add(off, idx), T: el}
+	}
+	return Step{Kind: StepIndex, Index: idx, Off: off, T: el}
 }
